@@ -11,7 +11,7 @@ def main():
     if r.returncode: print("patch does not apply:", r.stderr); sys.exit(2)
     out = tempfile.mkdtemp(prefix='pyvc-seed-'); res = {}
     try:
-        env = dict(os.environ, PYVC_OUT=out, PYVC_PROCS='6')
+        env = dict(os.environ, PYVC_OUT=out, PYVC_PROCS='6', PYVC_CACHE=os.path.join(out, 'unit-cache'), PYVC_TIMEOUT_MS='8000')
         def one(p):
             r = subprocess.run([os.path.join(ROOT, 'check'), p], capture_output=True, text=True, env=env, cwd=ROOT)
             return p, r.returncode, [l for l in r.stdout.splitlines() if l.startswith(('VIOLATION', 'UNDECIDED', 'BROKEN'))]
